@@ -25,6 +25,7 @@ NOTES = {
  "C09-c": "missed at first (wrong passwords differed by a few bytes); caught after wrong passwords longer by 255/256/257/512/768 bytes were added",
  "C15-c": "missed at first (no half-close or reset while the body was incomplete); caught after the generator gained peer FIN / reset after the complete head",
  "C20-c": "missed at first (complete TLS configuration only); caught after family `tls` gained incomplete configurations (chain without key, unloadable key, protocol only)",
+ "C19-c": "first run: `no-failing-input-found` (the extracted statement demanded at most one headers-parsed and no bytes after the close, the wire was unchanged); after the statement gained 'no headers-parsed notification and no middleware/handler note after the close' (theorem `no_headers_after_close` added): concrete replay",
  "C06-b": "caught on the first run, thanks to the refusal styles (silent / own fragment without close) added to model, spec and harness beforehand",
 }
 rows = []
